@@ -236,6 +236,11 @@ func (m *Machine) eval(e *T) (*T, *T) {
 		switch key(e.S, len(e.Args)) {
 		case "+/2", "-/2", "*/2", "-/1", "+/1", "///2", "mod/2", "abs/1", "min/2", "max/2":
 		default:
+			if knownEvaluable[key(e.S, len(e.Args))] {
+				// an evaluable functor the reference does not model: the case is not asserted
+				m.Unsupported = "arithmetic functor " + key(e.S, len(e.Args))
+				return nil, instErr()
+			}
 			return nil, typeErr("evaluable", term.C("/", term.A(e.S), term.I(int64(len(e.Args)))))
 		}
 		var vals []*big.Int
@@ -298,6 +303,16 @@ func (m *Machine) eval(e *T) (*T, *T) {
 		return term.I(r.Int64()), nil
 	}
 	return nil, typeErr("evaluable", e)
+}
+
+// evaluable functors of ISO (and common extensions) that the reference does not compute.
+var knownEvaluable = map[string]bool{
+	"//2": true, "**/2": true, "^/2": true, ">>/2": true, "<</2": true, "/\\/2": true, "\\//2": true, "xor/2": true,
+	"rem/2": true, "div/2": true, "sign/1": true, "\\/1": true, "float/1": true, "integer/1": true, "truncate/1": true,
+	"round/1": true, "ceiling/1": true, "floor/1": true, "sqrt/1": true, "sin/1": true, "cos/1": true, "atan/1": true,
+	"exp/1": true, "log/1": true, "float_integer_part/1": true, "float_fractional_part/1": true, "atan2/2": true,
+	"tan/1": true, "asin/1": true, "acos/1": true, "gcd/2": true, "msb/1": true, "succ/1": true, "plus/2": true,
+	"truncate/2": true, "cot/1": true, "sinh/1": true, "cosh/1": true, "tanh/1": true, "asinh/1": true, "acosh/1": true, "atanh/1": true,
 }
 
 func arithCmp(f func(int) bool) builtin {
